@@ -296,22 +296,22 @@ def life_property(kind, clause):
     return (p,) if p else ()
 
 
-def write_life_cfg(path, mode, objs, depth, bound=None):
+def write_life_cfg(path, mode, objs, depth, bound=None, theme="all"):
     b = dict(MaxSrc=2, MaxCarried=2)
     b.update(bound or {})
     lines = ["SPECIFICATION Spec", "CONSTANTS", "  MaxSrc = %d" % b["MaxSrc"], "  MaxCarried = %d" % b["MaxCarried"],
              "  Objs = {%s}" % ", ".join(str(o) for o in objs), "  Depth = %d" % depth,
-             '  Mode = "%s"' % mode, "  Export = TRUE",
+             '  Mode = "%s"' % mode, '  Theme = "%s"' % theme, "  Export = TRUE",
              "INVARIANT Inv_Export", "INVARIANT Inv_CompletedIffEnded", "INVARIANT Inv_Envelope",
              "INVARIANT Inv_TypeOK", "PROPERTY Act_Terminal", "CHECK_DEADLOCK FALSE"]
     with open(path, "w") as f:
         f.write("\n".join(lines) + "\n")
 
 
-def generate_life(name, mode, objs, depth, seed, num=None, cap=None):
+def generate_life(name, mode, objs, depth, seed, num=None, cap=None, theme="all"):
     wd = tlc.workdir("life-" + name)
     cfg = os.path.join(wd, "Life.cfg")
-    write_life_cfg(cfg, mode, objs, depth)
+    write_life_cfg(cfg, mode, objs, depth, theme=theme)
     if mode == "alphabet":
         res = tlc.run("MosLife", cfg, "life-" + name, workers=16, timeout=3000)
     else:
@@ -339,17 +339,32 @@ def _expose_fn(m, cls):
     return expose.exposure(m, cls)
 
 
-def _run_beh_chunk(chunk):
+def _run_beh_chunk(args):
+    """replay a chunk of behaviours; the events go straight into shard files for the judges"""
+    n, chunk, wd = args
     from . import behave, execute
-    out = []
-    for bid, beh in chunk:
+    seq, obs, light, mach = [], [], [], []
+    for gidx, bid, beh in chunk:
         try:
             evs = behave.run_behaviour(bid, beh, _G["seed"], observe=_observe_fn if _G.get("observe") else None,
                                        expose=_expose_fn if _G.get("expose") else None)
-            out.append((bid, evs, None))
         except execute.Machinery as e:
-            out.append((bid, [], str(e)))
-    return out
+            mach.append(str(e))
+            continue
+        for e in evs:
+            e["obj"] = gidx * 10 + e["obj"]          # object ids unique across behaviours
+            if e["k"] == "observe" and "obs" in e:
+                obs.append({"id": e["id"], "view": e["obs"]["view"], "obs": e["obs"]["obs"]})
+            light.append((e["id"], e["k"], e["status"], bid,
+                          {k: e.get(k) for k in ("status", "warns", "ser_eq", "intact", "cls", "completed_eq")}))
+            seq.append({k: v for k, v in e.items() if k not in ("xml", "beh", "obs")})
+    spath = os.path.join(wd, "seq%d.json" % n)
+    with open(spath, "w") as f:
+        json.dump(seq, f)
+    opath = os.path.join(wd, "obs%d.json" % n)
+    with open(opath, "w") as f:
+        json.dump(obs, f)
+    return (spath, len(seq)), (opath, len(obs)), light, mach, len(chunk) - len(mach)
 
 
 def run_life_check(report, plans, seed, tier, observe=False, expose=False):
@@ -360,7 +375,7 @@ def run_life_check(report, plans, seed, tier, observe=False, expose=False):
     for plan in plans:
         name = "%s-%s" % (prop, plan["name"])
         behs, st = generate_life(name, plan["mode"], plan["objs"], plan["depth"], seed,
-                                 num=plan.get("num"), cap=plan.get("cap"))
+                                 num=plan.get("num"), cap=plan.get("cap"), theme=plan.get("theme", "all"))
         if not behs:
             report.machinery_error("no behaviour generated for plan %s" % plan["name"])
             continue
@@ -368,57 +383,54 @@ def run_life_check(report, plans, seed, tier, observe=False, expose=False):
         cov["transitions"] += st.get("generated", 0) or len(behs) * plan["depth"]
         cov["tlc"].append({"plan": plan, "cmd": st["cmd"], "wall_s": st["wall_s"], "behaviours": len(behs),
                            "theorems": ["Inv_CompletedIffEnded", "Inv_Envelope", "Inv_TypeOK", "Act_Terminal"]})
-        todo = [("%s:%d" % (plan["name"], i), b) for i, b in enumerate(behs)]
-        chunks = [todo[i:i + 25] for i in range(0, len(todo), 25)]
+        todo = [(i, "%s:%d" % (plan["name"], i), b) for i, b in enumerate(behs)]
+        behmap = {bid: b for _, bid, b in todo}
+        wd = tlc.workdir("events-" + name)
+        nfiles = max(1, min(16, (len(todo) + 24) // 25))
+        chunks = [(n, todo[n::nfiles], wd) for n in range(nfiles)]
         ctx = multiprocessing.get_context("fork")
         with ctx.Pool(16, initializer=_init, initargs=({}, seed, observe, expose)) as pool:
-            results = [r for part in pool.map(_run_beh_chunk, chunks) for r in part]
-        events = []
-        behmap = dict(todo)
-        for n, (bid, evs, err) in enumerate(results):
-            if err:
-                report.machinery_error(err)
-                continue
-            for e in evs:
-                e["obj"] = n * 10 + e["obj"]      # object ids unique across behaviours
-                e["beh"] = bid
-            events.append(evs)
-        cov["behaviours"] += len(events)
-        flat = [e for evs in events for e in evs]
-        for e in flat:
-            cov["kinds"][e["k"]] = cov["kinds"].get(e["k"], 0) + 1
-            s = e["status"].split(":")[0]
-            cov["status_counts"][s] = cov["status_counts"].get(s, 0) + 1
-        bad, jst = judge_sequences(events, name)
+            results = pool.map(_run_beh_chunk, chunks)
+        light = {}
+        for sfile, ofile, lt, mach, nb in results:
+            for m in mach:
+                report.machinery_error(m)
+            cov["behaviours"] += nb
+            cov["traces_validated_against_impl"] += nb
+            for eid, k, status, bid, small in lt:
+                light[eid] = (k, bid, small)
+                cov["kinds"][k] = cov["kinds"].get(k, 0) + 1
+                s0 = status.split(":")[0]
+                cov["status_counts"][s0] = cov["status_counts"].get(s0, 0) + 1
+        bad, jst = judge_files([r[0] for r in results], name)
         cov["events"] += jst["judged"]
-        cov["traces_validated_against_impl"] += len(events)
         cov["states"] += jst["states"]
-        if behs:
-            b0 = behs[0]
-            cov["samples"].append({"plan": plan["name"], "steps": [
-                {"k": s["k"], "obj": s["obj"], "cls": s["msg"]["cls"], "ref": s["ref"]} for s in b0["steps"]]})
-        byid = {e["id"]: e for e in flat}
+        b0 = behs[0]
+        cov["samples"].append({"plan": plan["name"], "steps": [
+            {"k": s["k"], "obj": s["obj"], "cls": s["msg"]["cls"], "ref": s["ref"]} for s in b0["steps"]]})
         if observe:
             from .observe import OBS_CLAUSES
-            oevs = [{"id": e["id"], "view": e["obs"]["view"], "obs": e["obs"]["obs"]} for e in flat if e["k"] == "observe"]
-            obad, ojst = judge(oevs, name + "-obs", module="Trace_Observe")
+            obad, ojst = judge_files([r[1] for r in results], name + "-obs", module="Trace_Observe")
             cov["observations"] = cov.get("observations", 0) + ojst["judged"]
             cov["states"] += ojst["states"]
             for b in obad:
                 for clause in b["clauses"]:
                     if prop in OBS_CLAUSES.get(clause, ()):
-                        ev = byid[b["id"]]
+                        _, bid, _ = light[b["id"]]
                         report.failure(clause, "life:" + b["sig"],
-                                       {"kind": "behaviour_observe", "behaviour": behmap[ev["beh"]], "beh_id": ev["beh"],
+                                       {"kind": "behaviour_observe", "behaviour": behmap[bid], "beh_id": bid,
                                         "seed": seed, "failing_step": b["id"], "raised": b["raised"]})
+        else:
+            for r in results:
+                if os.path.exists(r[1][0]):
+                    os.remove(r[1][0])
         for b in bad:
-            ev = byid[b["id"]]
+            _, bid, small = light[b["id"]]
             for clause in b["clauses"]:
                 if prop not in life_property(b["k"], clause):
                     continue
-                detail = {"kind": "behaviour", "behaviour": behmap[ev["beh"]], "beh_id": ev["beh"], "seed": seed,
-                          "failing_step": b["id"], "step_kind": b["k"],
-                          "observed": {k: ev.get(k) for k in ("status", "warns", "ser_eq", "intact", "cls", "completed_eq")}}
+                detail = {"kind": "behaviour", "behaviour": behmap[bid], "beh_id": bid, "seed": seed,
+                          "failing_step": b["id"], "step_kind": b["k"], "observed": small}
                 report.failure(clause, "%s:%s" % (b["k"], b["sig"]), detail)
     return cov
 
